@@ -110,3 +110,68 @@ def make_def_obligation(fn):
 
 for _fn in SPEC1:
     make_def_obligation(_fn)
+
+# ------------------------------------------------------------------------------------------------
+# Back end A (IEEE-754, CBMC code contracts): documented values at 0, 1/4, 1; NaN on negatives; frame
+# ------------------------------------------------------------------------------------------------
+from gm2v.ob import cbmc_contract, replay_cbmc_scalar
+
+SPECIAL = {
+    # function: {argument literal: C expression of the documented value}   (math/ffunctions.m, papers)
+    'F1C': {'0.0': '4.0', '1.0': '1.0'},
+    'F2C': {'0.0': '0.0', '1.0': '1.0'},
+    'F3C': {'1.0': '1.0'},
+    'F4C': {'0.0': '0.0', '1.0': '1.0'},
+    'F1N': {'0.0': '2.0', '1.0': '1.0'},
+    'F2N': {'0.0': '3.0', '1.0': '1.0'},
+    'F3N': {'0.0': '8.0/105.0', '1.0': '1.0'},
+    'F4N': {'0.0': '-0.6522033008170189', '1.0': '1.0'},       # -3(pi^2-9)/4
+    'G3': {'1.0': '1.0/3.0'},
+    'G4': {'1.0': '1.0/6.0'},
+    'f_PS': {'0.0': '0.0', '0.25': '1.3862943611198906'},       # 2 ln 2
+    'f_S': {'0.0': '0.0'},
+    'f_sferm': {'0.0': '0.0'},
+    'f_CSl': {'0.0': '0.0'},
+    'F1': {'0.0': '0.0', '0.25': '-0.5'},
+    'F1t': {'0.0': '0.0', '0.25': '0.6931471805599453'},        # ln 2
+    'F2': {'0.25': '-0.3862943611198906'},                      # 1 - ln 4
+    'F3': {'0.25': '4.75'},
+}
+
+# callee contracts (replace-call-with-contract): the special functions are total on finite arguments
+CALLEE_A = {
+    'dilog': ['__CPROVER_requires(1)',
+              '__CPROVER_ensures(isnan(x) ==> isnan(__CPROVER_return_value))',
+              '__CPROVER_ensures((!isnan(x) && !isinf(x)) ==> (!isnan(__CPROVER_return_value) && !isinf(__CPROVER_return_value)))',
+              '__CPROVER_assigns()'],
+    'clausen_2': ['__CPROVER_requires(1)',
+                  '__CPROVER_ensures(isnan(x) ==> isnan(__CPROVER_return_value))',
+                  '__CPROVER_ensures((!isnan(x) && !isinf(x)) ==> (!isnan(__CPROVER_return_value) && __CPROVER_return_value >= -1.0149416064096537 && __CPROVER_return_value <= 1.0149416064096537))',
+                  '__CPROVER_ensures(x == 0.0 ==> __CPROVER_return_value == 0.0)',
+                  '__CPROVER_assigns()'],
+}
+
+def make_special_obligation(fn):
+    sp = SPECIAL[fn]
+    par = 'w' if fn in ('F1', 'F1t', 'F2', 'F3') else ('z' if fn in ('f_PS', 'f_S', 'f_sferm', 'f_CSl') else 'x')
+    clauses = ['__CPROVER_requires(1)']
+    for arg, val in sp.items():
+        if (fn, arg) in (('F4N', '0.0'), ('F1t', '0.25'), ('F2', '0.25'), ('f_PS', '0.25')):
+            # irrational documented value: equal to within 1e-15
+            clauses.append('__CPROVER_ensures(%s == %s ==> (__CPROVER_return_value - (%s) <= 1e-15 && (%s) - __CPROVER_return_value <= 1e-15))' % (par, arg, val, val))
+        else:
+            clauses.append('__CPROVER_ensures(%s == %s ==> __CPROVER_return_value == %s)' % (par, arg, val))
+    clauses.append('__CPROVER_ensures((%s >= -1e12 && %s <= -1e-14) ==> isnan(__CPROVER_return_value))' % (par, par))
+    clauses.append('__CPROVER_assigns()')
+
+    @obligation('C01.%s.special' % fn, fns=[(FF, fn)], backend='A',
+                replay=replay_cbmc_scalar([FF], [DL, 'src/gm2_numerics.cpp']))
+    def ob(ctx, fn=fn, clauses=clauses):
+        """A (IEEE): documented value at exactly 0 / 1/4 / 1, NaN for every argument in [-1e12,-1e-14], empty write frame"""
+        ctx.assume_note('A-LIBM(A): gm2v_log/sqrt/atan2/... are uninterpreted with the assumed sign/NaN/range facts in gm2v/cprint.py')
+        ctx.assume_note('callee contracts (A): dilog, clausen_2 total and finite on finite arguments, NaN on NaN')
+        cbmc_contract(ctx, '', fn, FF, clauses, callee_contracts=CALLEE_A)
+    return ob
+
+for _fn in SPECIAL:
+    make_special_obligation(_fn)
